@@ -149,8 +149,19 @@ static long envl(const char* n, long d) {
   return s && *s ? atol(s) : d;
 }
 
-static void futex_wait(_Atomic int* a, int v) { syscall(SYS_futex, a, FUTEX_WAIT, v, NULL, NULL, 0); }
-static void futex_wake(_Atomic int* a) { syscall(SYS_futex, a, FUTEX_WAKE, INT_MAX, NULL, NULL, 0); }
+/* The runtime must be invisible to the code under test: a scheduling point sits behind every
+ * instrumented access, also between a failing system call and the caller's look at errno
+ * (FUTEX_WAIT returns EAGAIN whenever the baton moved first) - errno is preserved. */
+static void futex_wait(_Atomic int* a, int v) {
+  const int e = errno;
+  syscall(SYS_futex, a, FUTEX_WAIT, v, NULL, NULL, 0);
+  errno = e;
+}
+static void futex_wake(_Atomic int* a) {
+  const int e = errno;
+  syscall(SYS_futex, a, FUTEX_WAKE, INT_MAX, NULL, NULL, 0);
+  errno = e;
+}
 
 static void wait_turn(int me) {
   int t;
